@@ -24,11 +24,11 @@ BUDGETS = {
     "C10": {"quick": {"procs": 32, "runs": 12}, "thorough": {"procs": 192, "runs": 100}},
     "C11": {"quick": {"procs": 32, "runs": 10}, "thorough": {"procs": 192, "runs": 60}},
     "C12": {"quick": {"procs": 32, "runs": 10}, "thorough": {"procs": 256, "runs": 80}},
-    "C13": {"quick": {"procs": 32, "runs": 8}, "thorough": {"procs": 192, "runs": 80}},
+    "C13": {"quick": {"procs": 32, "runs": 20}, "thorough": {"procs": 192, "runs": 150}},
     "C14": {"quick": {"procs": 32, "runs": 15}, "thorough": {"procs": 256, "runs": 120}},
     "C15": {"quick": {"procs": 32, "runs": 25}, "thorough": {"procs": 256, "runs": 250}},
     "C16": {"quick": {"procs": 32, "runs": 10}, "thorough": {"procs": 256, "runs": 80}},
-    "C17": {"quick": {"procs": 32, "runs": 4}, "thorough": {"procs": 192, "runs": 30}},
+    "C17": {"quick": {"procs": 32, "runs": 12}, "thorough": {"procs": 192, "runs": 80}},
 }
 
 
@@ -207,5 +207,16 @@ META = {
         "faults: reject_op (refused query inside the history), relabel (the adjustment set is iterated as a set), back-end swarm.  The truncated factorisation and "
         "criteria are by-products of the reference model; the simulated part is the engine history inside and across queries.",
         ["multiple_do_variables", "parent_child_do_pair", "refused_query_raised"],
+    ),
+    "C17": _m(
+        "one evaluation = one simulated run: a two-slice template of 1..3 variables per slice (cardinality 2..3, random intra-slice DAG, inter-slice edges in three styles: "
+        "persistence X_t -> X_t+1, persistence plus cross edges, arbitrary), strictly positive tables, built in PRNG-chosen edge / CPD insertion orders; ONE DBNInference "
+        "object answers 1..4 questions (query = smoothing, forward_inference = filtering, backward_inference) on variables in slices 0..3 (4 thorough) with 0..3 evidence "
+        "items anywhere incl. interface nodes, then get_constant_bn.  Templates outside the domain of the interface algorithm (a variable missing from the 1.5-slice "
+        "network, disconnected slice graphs) are counted and skipped.  Oracle: brute-force joint of the network unrolled to the needed number of slices (<= 70000 cells); "
+        "the constant network's CPDs equal the template's.  Non-trivial = at least one checked question; distinct = distinct trace digest; order signature = cliques of "
+        "the 1.5-slice junction tree.",
+        "faults: relabel / insertion order (hash-order-driven junction-tree layout and _get_clique(...)[0]), one engine reused for the whole history",
+        ["interface_nodes_1", "interface_nodes_2"],
     ),
 }
